@@ -386,6 +386,18 @@ func DDLCases(yield func(name string, s S)) {
 			}
 		}
 	}
+	// ALTER TABLE (the operations whose representation is unambiguous)
+	alter := func(name string, tail []Tok, op *ast.AlterTableOperation, feat string) {
+		t := cat(kws("ALTER TABLE"), []Tok{pt("t1")}, tail)
+		yield("alter-table", simpleStmt("alter-table", t, &ast.AlterStatement{Type: ast.AlterTypeTable, Name: "t1", Operation: op},
+			[]string{"alter-table", "alter-table." + feat}, []Name{{Role: "table", Name: "t1"}}))
+	}
+	alter("add-column", cat(kws("ADD COLUMN"), []Tok{pt("c9"), pt("INT")}), &ast.AlterTableOperation{Type: ast.AddColumn, ColumnDef: &ast.ColumnDef{Name: "c9", Type: "INT"}}, "add-column")
+	alter("add-column-type-params", cat(kws("ADD COLUMN"), []Tok{pt("c9")}, typeToks("VARCHAR(10)")), &ast.AlterTableOperation{Type: ast.AddColumn, ColumnDef: &ast.ColumnDef{Name: "c9", Type: "VARCHAR(10)"}}, "add-column")
+	alter("drop-column", cat(kws("DROP COLUMN"), []Tok{pt("c9")}), &ast.AlterTableOperation{Type: ast.DropColumn, ColumnName: &ast.Ident{Name: "c9"}}, "drop-column")
+	alter("rename-table", cat(kws("RENAME TO"), []Tok{pt("t9")}), &ast.AlterTableOperation{Type: ast.RenameTable, NewTableName: ast.ObjectName{Name: "t9"}}, "rename-table")
+	alter("add-constraint", cat(kws("ADD CONSTRAINT"), []Tok{pt("k1")}, kws("UNIQUE"), paren(identList([]string{"c1", "c2"}))),
+		&ast.AlterTableOperation{Type: ast.AddConstraint, Constraint: &ast.TableConstraint{Name: "k1", Type: "UNIQUE", Columns: []string{"c1", "c2"}}}, "add-constraint")
 	for _, tk := range []bool{false, true} {
 		for _, names := range [][]string{{"t1"}, {"t1", "t2"}} {
 			for _, id := range []string{"", "RESTART IDENTITY", "CONTINUE IDENTITY"} {
